@@ -32,6 +32,8 @@ def gen_inputs(rng, spec, n=None, engines_ok=None):
     # one set-point series (one array object) for the PTI/PTOs of several shaft lines, one load series for several propellers:
     # what a user does for a twin-screw vessel
     inp["alias"] = bool(rng.random() < 0.3)
+    # flag series assigned blank and then filled in place (pti.full_pti_mode = np.zeros(n, bool); pti.full_pti_mode[3:5] = True)
+    inp["fill_in_place"] = bool(rng.random() < 0.3)
     first_shaft = None
     for c in spec["mechanical"]:
         if c["kind"] == "pti_pto_ref":
@@ -44,6 +46,12 @@ def gen_inputs(rng, spec, n=None, engines_ok=None):
             inp["comp"][c["name"]] = {"shaft": shaft,
                                       "full": [bool(rng.random() < 0.25) for _ in range(n)],
                                       "status": [True] * n}
+    inp["dtype"]["power"] = str(rng.choice(["float", "int"], p=[0.8, 0.2]))      # whole-number series in integer arrays
+    if inp["dtype"]["power"] == "int":
+        for d in inp["comp"].values():
+            for key in ("load", "shaft"):
+                if key in d:
+                    d[key] = [float(round(x)) for x in d[key]]
     if inp["alias"]:
         loads = [c for c in spec["mechanical"] if c["kind"] == "mech_load"]
         for a, b in zip(loads, loads[1:]):
@@ -56,10 +64,14 @@ def apply_inputs(plant, inp):
     n = inp["n"]
     st_dt = {"bool": bool, "int": int, "float": float}[inp.get("dtype", {}).get("status", "bool")]
     on_vector = np.ones(n, dtype=st_dt)
+    pw_dt = int if inp.get("dtype", {}).get("power", "float") == "int" else float
     cache = {}
 
-    def arr(values, dt=float):
+    def arr(values, dt=None):
         """a fresh array, or (alias mode) the one array object already made for the same series"""
+        dt = pw_dt if dt is None else dt
+        if dt is int and not all(float(v).is_integer() for v in values):
+            dt = float
         if not inp.get("alias"):
             return np.array(values, dtype=dt)
         key = (np.dtype(dt).name, tuple(values))
@@ -74,7 +86,11 @@ def apply_inputs(plant, inp):
             obj.set_power_input_from_output(arr(d["load"]))
         else:
             obj.status = np.array(d["status"], dtype=bool)
-            obj.full_pti_mode = np.array(d["full"], dtype=bool)
+            if inp.get("fill_in_place") and len(d["full"]) == n:
+                obj.full_pti_mode = np.zeros(n, dtype=bool)
+                obj.full_pti_mode[np.array(d["full"], dtype=bool)] = True
+            else:
+                obj.full_pti_mode = np.array(d["full"], dtype=bool)
             obj.set_power_input_from_output(arr(d["shaft"]))
     plant.mechanical.set_time_interval(np.array(inp["dt"], dtype=float), integration_method=IntegrationMethod.sum_with_time)
 
@@ -132,6 +148,7 @@ def compare_with_model(ctx, spec, inp, obs, where, tagprefix=""):
 
 def gen_case(rng, idx, **kw):
     spec = plants.gen_mechanical_plant(rng, **kw)
+    plants.mark_int_ratings(rng, spec)
     return {"idx": idx, "spec": spec, "inputs": gen_inputs(rng, spec)}
 
 
